@@ -52,6 +52,60 @@ TEXTS = {
                 "by correspondence and by evaluating spec_C19 on the crate's observations.",
         "design_ref": "DESIGN.md §4 C19", "note": NOTE_COMMON, "technique": TECH,
     },
+    "C07": {
+        "text": "Theorems (Properties/C07.v): big-endian u32 round trip, name cut (bounded by the limit and by the name, identity when it fits, "
+                "limit fits the one-byte field; limits regenerated from the source), writer header accepted by the reader. PARTIAL: the "
+                "whole-ontology statement decode(encode o) = Ok o' with o' observationally equal to o is not yet a theorem; it is decided per "
+                "generated ontology by the Gallina encode/decode transcription run against as_bytes/from_bytes (bytes compared record-sorted, "
+                "reload dumped through the whole read API, Ontology::compare consulted) and by spec_C07 evaluated on the crate's observation.",
+        "design_ref": "DESIGN.md §4 C07", "note": NOTE_COMMON + "String::from_utf8 / is_char_boundary modelled by byte-level predicates.", "technique": TECH,
+    },
+    "C08": {
+        "text": "Theorems (Properties/C08.v): every input shorter than the minimum header is Err(ParseBinaryError); every file with the magic "
+                "and a version byte other than 2/3 is Err(NotImplemented); emitted version is an accepted one (constants regenerated from the "
+                "source). PARTIAL: 'every proper prefix and every extension of a valid file is rejected' is stated (C08_full_statement) but not "
+                "yet proved; it is decided by running the Gallina decoder and the crate on EVERY truncation offset, suffixes and version bytes "
+                "of files laid out by an independent v1/v2/v3 encoder, and by spec_C08 on the crate's outcomes.",
+        "design_ref": "DESIGN.md §4 C08", "note": NOTE_COMMON + "harness/src/bin.rs defines the documented layouts.", "technique": TECH,
+    },
+    "C10": {
+        "text": "Theorems (Properties/C10.v, about the Gallina transcription of the two-table arena, for EVERY insertion sequence and EVERY id): "
+                "get after any insertions = first inserted term with that id, None outside the id space; a returned term carries the asked id; "
+                "iteration yields each inserted id exactly once and agrees with len; insertion outside the id space panics; id-space size "
+                "regenerated from the source. Tied to the crate by sweeping Ontology::hpo over all 10^7+2 ids (plus probes to u32::MAX) per "
+                "generated ontology, and by evaluating spec_C10 (incl. the name lookups) on the crate's observation.",
+        "design_ref": "DESIGN.md §4 C10", "note": NOTE_COMMON + "str::contains modelled as byte-level infix.", "technique": TECH,
+    },
+    "C11": {
+        "text": "Theorems (Properties/C11.v): the reference distance sd used by the executable statement is the length of an actual parent chain "
+                "and is minimal over all chains (any fuel bound), chains are walks. spec_C11 compares every distance the crate reports with sd "
+                "over the reported parent links, distance_to_term with the minimum over common ancestors, and checks every reported path link "
+                "by link (a walk of exactly the reported distance). The Gallina transcription of distance_to_ancestor / path_to_ancestor / "
+                "distance_to_term / path_to_term is diffed against the crate on ALL ordered pairs of each generated ontology.",
+        "design_ref": "DESIGN.md §4 C11", "note": NOTE_COMMON + "Acyclic inputs only. Paths compared for validity and length, not identity.", "technique": TECH,
+    },
+    "C13": {
+        "text": "Theorems (Properties/C13.v, about the Gallina transcription): without_obsolete / with_replaced_obsolete are exactly the stated "
+                "filter / substitution (result strictly ascending, membership characterised), in-place variants equal the copying ones. spec_C13 "
+                "states child_nodes, modifier filter, unions of annotation ids, category counts and aggregated IC against the observation and "
+                "is evaluated on the crate's observation of every generated set; model and crate are diffed.",
+        "design_ref": "DESIGN.md §4 C13", "note": NOTE_COMMON, "technique": TECH,
+    },
+    "C14": {
+        "text": "Theorems (Properties/C14.v): a term accepted by the retained-term test lies on a shortest leaf-root chain (chains exhibited, "
+                "minimality over all chains); a result passing closure_ok is again an exact transitive closure. spec_C14 states retained set, "
+                "induced links, copied names/flags, preserved distances, refusal iff a leaf is outside the subtree, the annotation filter, and "
+                "re-runs the executable statements of C01-C03 on the result; evaluated on the crate's observation; the Gallina transcription "
+                "of sub_ontology is diffed against the crate.",
+        "design_ref": "DESIGN.md §4 C14", "note": NOTE_COMMON, "technique": TECH,
+    },
+    "C20": {
+        "text": "Theorems (Properties/C20.v, about the Gallina transcription, unbounded): parse(show n) = Ok n for EVERY n <= u32::MAX (induction "
+                "over digits, not enumeration); big-endian byte round trip; rendered shape 'HP:' + >= 7 digits; the parser never panics on any "
+                "byte string. Tied to the crate by sweeping ALL ids 0..10^7+1 and the u32 borders through to_string/try_from/to_be_bytes/from, "
+                "and by diffing model and crate on generated texts (multi-byte characters at every offset).",
+        "design_ref": "DESIGN.md §4 C20", "note": NOTE_COMMON + "u32::from_str grammar as documented by core.", "technique": TECH,
+    },
     "C12": {
         "text": "Unbounded theorems (Properties/C12.v, 12 statements, closed under the global context): every group operation "
                 "(insert, contains, |, &, +, | id, the four constructors) preserves strict ascending order and computes exactly the "
@@ -66,7 +120,7 @@ TEXTS = {
 
 ALL = [f"C{i:02d}" for i in range(1, 21)]
 NOT_APPLICABLE = [
-    {"property_id": p, "reason": "check not built yet in this round of work (model and theorems in progress; see DESIGN.md §7 order of work)"}
+    {"property_id": p, "reason": "check not built yet (model, theorems and harness in progress; DESIGN.md §7 order of work)"}
     for p in ALL if p not in TEXTS
 ]
 
